@@ -237,6 +237,11 @@ func (b *recBackend) HandleRequest(ctx context.Context, req *logical.Request) (*
 				InternalData: map[string]interface{}{"id": id, "secret_type": "rec"},
 			},
 		}
+		if strings.HasPrefix(req.Path, "lease/witherr/") {
+			// an engine that generates the secret and reports an error from the same call
+			// (the account was created, a later grant failed)
+			return resp, fmt.Errorf("rec: secret %s generated, a later step failed", id)
+		}
 		if strings.HasPrefix(req.Path, "lease/fresh/") {
 			resp.Secret.InternalData["fresh"] = true
 			resp.Secret.InternalData["ttl"] = int(ttl / time.Second)
